@@ -384,7 +384,7 @@ def gen_type(r, hier, depth):
   if depth == 0 or r.random() < 0.18:
     x = r.random()
     if x < 0.45:
-      return ("cls", r.choice(SCALARS), ())
+      return ("cls", r.choice(SCALARS + ["complex", "bytes", "float"]), ())
     if x < 0.6:
       return ("cls", r.choice(hier.class_names()), ())
     if x < 0.68:
@@ -455,7 +455,7 @@ def _gen_value(r, hier, depth, want_hashable):
   if depth == 0 or r.random() < 0.2:
     x = r.random()
     if x < 0.5:
-      return (r.choice(["int", "int", "bool", "float", "complex", "str", "str", "bytes", "none"]),)
+      return (r.choice(["int", "int", "bool", "float", "complex", "str", "str", "bytes", "bytearray", "none"]),)
     if x < 0.66:
       return ("inst", r.choice(hier.class_names()))
     if x < 0.76:
@@ -967,7 +967,7 @@ def unsupported_heads(t):
 # NEAR-MISS stream: annotation -> a value built to conform -> variants that differ from it in exactly one place.
 # Conforming / almost-conforming pairs discriminate far better than independent random (T, V) pairs.
 
-_NM_SCALARS = ["int", "float", "str", "bytes", "bool"]
+_NM_SCALARS = ["int", "float", "complex", "str", "bytes", "bool"]
 _NM_CONTAINERS = ["list", "set", "frozenset", "dict", "tuple", "Sequence"]
 _TUPLE_LIKE = ("tuple", "Sequence", "Iterable", "Container", "Collection")
 
@@ -1051,7 +1051,7 @@ def gen_conforming(r, hier, t):
   if name == "float":
     return (r.choice(["float", "float", "int"]),)
   if name == "complex":
-    return (r.choice(["complex", "float", "int"]),)
+    return (r.choice(["complex", "float", "int", "int", "bool"]),)
   if name in hier.class_names():
     return ("inst", r.choice([n for n in hier.class_names() if name in hier.mro[n]]))
   if hier.is_proto(name):
@@ -1149,7 +1149,7 @@ def near_miss_variants(r, hier, v, cap=6):
       picks.append(("random", r.choice(leaves[1:-1])))
   for label, path in picks:
     old = get_at(v, path)
-    cands = [(s,) for s in ("int", "float", "str", "bytes", "bool", "none") if (s,) != old]
+    cands = [(s,) for s in ("int", "float", "complex", "str", "bytes", "bytearray", "bool", "none") if (s,) != old]
     cands += [("inst", n) for n in hier.class_names()[:2] if ("inst", n) != old]
     r.shuffle(cands)
     for new in cands[:1 if label != "last" else 2]:
@@ -1239,3 +1239,42 @@ def diagnose_refilter(hier, t, v, site):
   finally:
     matcher.AbstractMatcher.compute_one_match = orig
   return bool(hits)
+
+
+# ------------------------------------------------------------------------------------------------
+# targeted pairs for a promotion (compat) pair: a value of the compatible class at top level and inside every
+# container / Optional / Union position, against the target builtin
+
+_COMPAT_VALUE = {"builtins.int": [("int",), ("bool",)], "builtins.float": [("float",)],
+                 "builtins.bytearray": [("bytearray",)], "builtins.NoneType": [("none",)],
+                 "builtins.complex": [("complex",)], "builtins.bool": [("bool",)], "builtins.bytes": [("bytes",)],
+                 "builtins.str": [("str",)]}
+_SHORT = {v: k for k, v in FULLNAME.items() if k in ("int", "float", "complex", "bool", "str", "bytes", "bytearray",
+                                                      "none")}
+
+
+def compat_targets(pair):
+  """[(annotation, value)] exercising promotion pair (compatible class, target builtin); [] if the compatible
+  class has no value expression in the grammar (memoryview)."""
+  c, h = pair
+  if c not in _COMPAT_VALUE or h not in _SHORT:
+    return []
+  H = ("cls", _SHORT[h], ())
+  S = ("cls", "str", ())
+  out = []
+  for v in _COMPAT_VALUE[c]:
+    out += [(H, v), (("union", (H, NONE_T)), v), (("union", (H, S)), v),
+            (("cls", "list", (H,)), ("list", (v,))), (("cls", "Sequence", (H,)), ("list", (v, v))),
+            (("cls", "tuple", (H,)), ("tuple", (v,))), (("ftuple", (H, S)), ("tuple", (v, ("str",)))),
+            (("cls", "dict", (S, H)), ("dict", ((("str",), v),))), (("cls", "Mapping", (S, ("union", (H, NONE_T)))),
+                                                                     ("dict", ((("str",), v),))),
+            (("cls", "Iterable", (H,)), ("tuple", (v, v))), (("type", H), ("class", _SHORT[c]))
+            if _SHORT.get(c) in ("int", "str") else (H, v)]
+    if hashable_val(v):
+      out += [(("cls", "set", (H,)), ("set", (v,))), (("cls", "frozenset", (H,)), ("frozenset", (v,)))]
+  seen, uniq = set(), []
+  for p in out:
+    if p not in seen:
+      seen.add(p)
+      uniq.append(p)
+  return uniq
